@@ -735,6 +735,48 @@ fn one(run: &mut Run, input: &str) {
                 Err(l) => run.oracle_fail("dcs_rt", input, &format!("panic at {}", panic_site(&l))),
             }
         }
+        // several DCS font sequences through ONE parser, back to back or separated by other traffic (text, a macro
+        // definition, an OSC, a cursor move): what the ANSI writer emits for a buffer with several custom font slots.
+        // Every slot must hold exactly the font that was sent to it.
+        "dcsseq" => {
+            let (k, sep, seed): (usize, usize, u64) = (f[0].parse().unwrap_or(2), f[1].parse().unwrap_or(0), f.get(2).and_then(|x| x.parse().ok()).unwrap_or(0));
+            let seps = ["", "A", "\x1b[2;2H", "\x1bP1;0;0!zAB\x1b\\", "\x1b]8;;\x1b\\", "\r\n"];
+            let sep_s = seps[sep % seps.len()].replace("\\x1b", "\x1b").replace("\\\\", "\\").replace("\\r", "\r").replace("\\n", "\n");
+            let hs = [16usize, 8, 14, 1, 32, 19];
+            let fonts: Vec<(usize, BitFont)> = (0..k.clamp(1, 6)).map(|i| (i + 1 + (seed as usize % 3) * 10, BitFont::create_8(format!("f{i}"), 8, hs[(i + seed as usize) % 6] as u8, &fill_bytes(256 * hs[(i + seed as usize) % 6], seed + 7 * i as u64)))).collect();
+            let mut stream = String::new();
+            for (slot, font) in &fonts {
+                stream.push_str(&font.encode_as_ansi(*slot));
+                stream.push_str(&sep_s);
+            }
+            run.count("dcsseq");
+            let got = catch(std::panic::AssertUnwindSafe(|| {
+                let mut buf = Buffer::create((80, 25));
+                buf.is_terminal_buffer = true;
+                let mut caret = Caret::default();
+                let mut p = ansi::Parser::default();
+                for c in stream.chars() {
+                    let _ = p.print_char(&mut buf, 0, &mut caret, c);
+                }
+                fonts.iter().map(|(slot, _)| buf.get_font(*slot).cloned()).collect::<Vec<_>>()
+            }));
+            match got {
+                Ok(v) => {
+                    for ((slot, font), back) in fonts.iter().zip(v) {
+                        let guarded = raw_guard(&font.convert_to_u8_data(), font.size.height as usize);
+                        match back {
+                            Some(b) => {
+                                if let Err(e) = same_font(font, &b) {
+                                    run.oracle_fail(if guarded { "dcs_rt" } else { "raw_font_magic_ambiguity" }, input, &format!("font sent to slot {slot} as sequence in a stream of {k} font sequences: {e}"));
+                                }
+                            }
+                            None => run.oracle_fail(if guarded { "dcs_rt" } else { "raw_font_magic_ambiguity" }, input, &format!("font sent to slot {slot} in a stream of {k} font sequences was not installed")),
+                        }
+                    }
+                }
+                Err(l) => run.oracle_fail("dcs_rt", input, &format!("panic at {}", panic_site(&l))),
+            }
+        }
         // font pages / SAUCE names that do not exist are errors, not panics and not some other font
         "nofont" => {
             let k: usize = f[0].parse().unwrap_or(43);
@@ -1078,6 +1120,11 @@ pub fn run(run: &mut Run, seed: u64, thorough: bool, replay: Option<&str>, corpu
     // DCS font loading: slot numbers over the whole usize range, every padding shape of base64 (height mod 3)
     for (i, slot) in [0usize, 1, 9, 10, 42, 255, 256, 65535, 65536, 4294967295, 4294967296, usize::MAX - 1, usize::MAX].iter().enumerate() {
         one(run, &format!("dcsslot:{slot}:{}:{}", [1usize, 2, 3, 16, 32, 31][i % 6], xr.below(1000)));
+    }
+    for k in 1..=4usize {
+        for sep in 0..6usize {
+            one(run, &format!("dcsseq:{k}:{sep}:{}", xr.below(1000)));
+        }
     }
     for k in [43usize, 44, 100, usize::MAX] {
         one(run, &format!("nofont:{k}"));
